@@ -320,6 +320,12 @@ impl KeyKeeperSharedState {
         self.set_key(None).await
     }
 
+    /// Get the current key record (guid and value together) with ONE round-trip to the actor,
+    /// so that callers that sign never pair the guid of one key with the value of another.
+    pub async fn get_current_key(&self) -> Result<Option<Key>> {
+        self.get_key().await
+    }
+
     pub async fn get_current_key_value(&self) -> Result<Option<String>> {
         match self.get_key().await {
             Ok(Some(k)) => Ok(Some(k.key)),
